@@ -131,11 +131,16 @@ def balking_lifo_inspection(seed, params):
 # BatchProcessor
 
 
-def _batch(seed, params, batch_size, timeout_of, default_n):
+def _batch(seed, params, batch_size, timeout_of, default_n, process_time=None, via_server=False):
     p = P(params, seed)
     sink = Sink("sink")
-    proc_t = p.lat(0)
-    bp = BatchProcessor("oven", sink, batch_size=batch_size(p), process_time=proc_t, timeout_s=timeout_of(p))
+    proc_t = p.lat(0) if process_time is None else process_time
+    extra = []
+    down = sink
+    if via_server:  # keeps the scenario non-trivial when the processor itself takes zero time
+        down = Server("after", concurrency=1, service_time=ConstantLatency(p.lat(2)), downstream=sink)
+        extra = [down]
+    bp = BatchProcessor("oven", down, batch_size=batch_size(p), process_time=proc_t, timeout_s=timeout_of(p))
     arr = p.arrivals(default_n)
     t0 = min(arr)
     # stragglers: singles and pairs (smaller than the batch) separated by more / less than the timeout
@@ -147,7 +152,7 @@ def _batch(seed, params, batch_size, timeout_of, default_n):
         tail.append(t)
         if k % 3 == 0:
             tail.append(t)
-    sim = make_sim([bp, sink], p.end())
+    sim = make_sim([bp, sink, *extra], p.end())
     _send(sim, bp, arr + tail, "Item")
     return Scenario(sim, {"oven": bp, "sink": sink}, FAMILY, True, len(arr) + len(tail))
 
@@ -248,14 +253,16 @@ def gate_schedule(seed, params):
     srv = Server("dock", concurrency=p.cap(1), service_time=ConstantLatency(p.lat(1)), downstream=sink)
     arr = p.arrivals(10)
     t0 = min(arr)
-    u = unit(p, t0, 8)
+    n = p.count(0, 3, hi=8)
+    u = unit(p, t0, 2 * n + 2)
     t0s = t0 / 1e9
-    windows = [(t0s + u, t0s + 2 * u), (t0s + 3 * u, t0s + 4 * u), (t0s + 5 * u, t0s + 5 * u + p.lat(0))]
+    windows = [(t0s + (2 * k + 1) * u, t0s + (2 * k + 2) * u) for k in range(n - 1)]
+    windows.append((t0s + (2 * n - 1) * u, t0s + (2 * n - 1) * u + p.lat(0)))
     gate = GateController("gate", srv, schedule=windows, initially_open=False, queue_capacity=p.cap(2) + 2)
     sim = make_sim([gate, srv, sink], p.end())
     for e in gate.start_events():
         sim.schedule(e)
-    _send(sim, gate, arr + _wave(t0, u * 7, 21), "Truck")
+    _send(sim, gate, arr + _wave(t0, u * (2 * n + 1), 21), "Truck")
     return Scenario(sim, {"gate": gate, "dock": srv, "sink": sink}, FAMILY, True, len(arr) + 21)
 
 
@@ -551,7 +558,7 @@ def split_merge(seed, params):
     """Fan out to three workers with different service times, merge on all_of; bursts overlap."""
     p = P(params, seed)
     sink = Sink("sink")
-    workers = [Replier(f"cell{k}", p.lat(k)) for k in range(3)]
+    workers = [Replier(f"cell{k}", p.lat(k)) for k in range(p.count(0, 3, lo=2))]
     sm = SplitMerge("assembly", workers, sink)
     arr = p.arrivals(8)
     sim = make_sim([sm, sink, *workers], p.end())
@@ -605,3 +612,454 @@ def production_line(seed, params):
     _send(sim, gate, times, "Part")
     comps = {e.name: e for e in ents}
     return Scenario(sim, comps, FAMILY, True, len(times) + 1)
+
+
+# ======================================================================
+# degenerate operations / zero durations / structural counts
+
+
+@scenario("industrial.batch_size_one_with_timeout", FAMILY)
+def batch_size_one_with_timeout(seed, params):
+    """batch_size 1 with a timeout: every item is a full batch, the timeout event must never be left armed."""
+    return _batch(seed, params, lambda p: 1, lambda p: p.lat(1), 8)
+
+
+@scenario("industrial.batch_timeout_tiny", FAMILY)
+def batch_timeout_tiny(seed, params):
+    """timeout_s = 1 ns (tiny against every arrival gap): partial batches are flushed one nanosecond later."""
+    return _batch(seed, params, lambda p: p.count(0, 4, lo=2), lambda p: 1e-9, 9)
+
+
+@scenario("industrial.batch_timeout_huge", FAMILY)
+def batch_timeout_huge(seed, params):
+    """timeout_s longer than the run: only full batches are released, the rest stays buffered."""
+    return _batch(seed, params, lambda p: p.count(0, 4, lo=2), lambda p: p.end() * 3.0, 9)
+
+
+@scenario("industrial.batch_process_time_zero", FAMILY)
+def batch_process_time_zero(seed, params):
+    """process_time 0.0 (accepted): batches are released at the instant they fill / time out."""
+    return _batch(seed, params, lambda p: p.cap(2) + 1, lambda p: p.lat(1), 9, process_time=0.0, via_server=True)
+
+
+@scenario("industrial.batch_zero_time_size_one_no_timeout", FAMILY)
+def batch_zero_time_size_one_no_timeout(seed, params):
+    """batch_size 1, process_time 0.0, timeout 0.0: a pure pass-through."""
+    return _batch(seed, params, lambda p: 1, lambda p: 0.0, 7, process_time=0.0, via_server=True)
+
+
+def _conveyor_chain(seed, params, transit_of, capacity_of, n_of):
+    p = P(params, seed)
+    sink = Sink("sink")
+    srv = Server("packer", concurrency=1, service_time=ConstantLatency(p.lat(3)), downstream=sink)
+    belts: list = []
+    down = srv
+    n = n_of(p)
+    for k in reversed(range(n)):
+        b = ConveyorBelt(f"belt{k}", down, transit_time=transit_of(p, k), capacity=capacity_of(p, k))
+        belts.insert(0, b)
+        down = b
+    arr = p.arrivals(9)
+    sim = make_sim([*belts, srv, sink], p.end())
+    _send(sim, belts[0], arr + _wave(min(arr), p.lat(3) * 4, 8), "Box")
+    return Scenario(sim, {**{b.name: b for b in belts}, "packer": srv, "sink": sink}, FAMILY, True, len(arr) + 8)
+
+
+@scenario("industrial.conveyor_tiny_transit_capacity_one", FAMILY)
+def conveyor_tiny_transit_capacity_one(seed, params):
+    """transit_time 1 ns, capacity 1: all but one item of a burst are rejected, stragglers 1 ns apart pass."""
+    return _conveyor_chain(seed, params, lambda p, k: 1e-9, lambda p, k: 1, lambda p: 1)
+
+
+@scenario("industrial.conveyor_zero_transit", FAMILY)
+def conveyor_zero_transit(seed, params):
+    """transit_time 0.0 (accepted) with capacity 1, then a positive-latency belt."""
+    return _conveyor_chain(seed, params, lambda p, k: 0.0 if k == 0 else p.lat(k), lambda p, k: 1 if k == 0 else 0, lambda p: 2)
+
+
+@scenario("industrial.conveyor_chain_counts", FAMILY)
+def conveyor_chain_counts(seed, params):
+    """p.count belts in series, alternating unbounded / capacity p.cap, transit times from p.lat."""
+    return _conveyor_chain(seed, params, lambda p, k: p.lat(k), lambda p, k: 0 if k % 2 else p.cap(2) + 1, lambda p: p.count(0, 3, hi=10))
+
+
+# ----------------------------------------------------------------------
+# GateController schedules
+
+
+@scenario("industrial.gate_zero_length_and_back_to_back", FAMILY)
+def gate_zero_length_and_back_to_back(seed, params):
+    """Zero-length windows (open == close) and back-to-back windows (close == next open), p.count windows."""
+    p = P(params, seed)
+    sink = Sink("sink")
+    srv = Server("dock", concurrency=p.cap(1), service_time=ConstantLatency(p.lat(1)), downstream=sink)
+    arr = p.arrivals(8)
+    t0 = min(arr)
+    n = p.count(0, 5, lo=2, hi=10)
+    u = unit(p, t0, n + 3)
+    t0s = t0 / 1e9
+    windows = []
+    for k in range(n):
+        a = t0s + (k + 1) * u
+        if k % 3 == 0:
+            windows.append((a, a))  # zero length
+        else:
+            windows.append((a, a + u))  # ends exactly where the next one starts
+    gate = GateController("gate", srv, schedule=windows, initially_open=False, queue_capacity=0)
+    sim = make_sim([gate, srv, sink], p.end())
+    for e in gate.start_events():
+        sim.schedule(e)
+    times = arr + _wave(t0, u * (n + 2), 3 * n + 6)
+    _send(sim, gate, times, "Truck")
+    return Scenario(sim, {"gate": gate, "dock": srv, "sink": sink}, FAMILY, True, len(times))
+
+
+@scenario("industrial.gate_schedule_in_the_past", FAMILY)
+def gate_schedule_in_the_past(seed, params):
+    """Every window lies before the first arrival (a belt delays the arrivals); an operator opens the gate later."""
+    p = P(params, seed)
+    sink = Sink("sink")
+    arr = p.arrivals(8)
+    t0 = min(arr)
+    t0s = t0 / 1e9
+    n = p.count(0, 3, hi=6)
+    windows = [(t0s * k / (2 * n + 1), t0s * (k + 1) / (2 * n + 1)) for k in range(0, 2 * n, 2)]
+    srv = Server("dock", concurrency=1, service_time=ConstantLatency(p.lat(1)), downstream=sink)
+    gate = GateController("gate", srv, schedule=windows, initially_open=True, queue_capacity=p.cap(2) + 3)
+    belt = ConveyorBelt("approach", gate, transit_time=p.lat(0))
+    u = unit(p, t0, 6)
+
+    def operator(proc, event):
+        proc.done += 1
+        return gate.open()
+
+    op = Proc("operator", operator)
+    sim = make_sim([gate, belt, srv, sink, op], p.end())
+    for e in gate.start_events():
+        sim.schedule(e)
+    times = arr + _wave(t0, u * 4, 10)
+    _send(sim, belt, times, "Truck")
+    sim.schedule(ev(t0 + int(u * 3 * 1e9), "open", op))
+    return Scenario(sim, {"gate": gate, "approach": belt, "dock": srv, "sink": sink}, FAMILY, True, len(times) + 1)
+
+
+@scenario("industrial.late_start_gate_schedule", FAMILY)
+def late_start_gate_schedule(seed, params):
+    """gate.start_events() obtained while the clock is already at the first arrival (gate switched on mid-run):
+    the first window of the absolute schedule has elapsed, the second is still ahead."""
+    p = P(params, seed)
+    sink = Sink("sink")
+    arr = p.arrivals(8)
+    t0 = min(arr)
+    t0s = t0 / 1e9
+    u = unit(p, t0, 6)
+    srv = Server("dock", concurrency=1, service_time=ConstantLatency(p.lat(1)), downstream=sink)
+    gate = GateController("gate", srv, schedule=[(t0s / 3, t0s / 2), (t0s + u, t0s + 2 * u)], initially_open=False)
+
+    def switch_on(proc, event):
+        proc.done += 1
+        return gate.start_events()
+
+    sw = Proc("switch_on", switch_on)
+    sim = make_sim([gate, srv, sink, sw], p.end())
+    sim.schedule(ev(t0, "on", sw))
+    times = arr + _wave(t0, u * 4, 12)
+    _send(sim, gate, times, "Truck")
+    return Scenario(sim, {"gate": gate, "dock": srv, "sink": sink}, FAMILY, True, len(times) + 1)
+
+
+@scenario("industrial.late_start_cycles", FAMILY)
+def late_start_cycles(seed, params):
+    """BreakdownScheduler.start_event() / PerishableInventory.start_event() obtained at the first arrival
+    (components switched on mid-run): both describe a delay from "now" (time to failure, check interval)."""
+    p = P(params, seed)
+    sink, waste = Sink("sink"), Recorder("waste")
+    arr = p.arrivals(8)
+    t0 = min(arr)
+    u = unit(p, t0, 6)
+    srv = Server("machine", concurrency=1, service_time=ConstantLatency(p.lat(1)), downstream=sink)
+    iv = period(p, 0, 300)
+    inv = PerishableInventory(
+        "dairy", initial_stock=4, shelf_life_s=iv * 2, spoilage_check_interval_s=iv, reorder_point=1, order_quantity=3,
+        lead_time=p.lat(2), downstream=srv, waste_target=waste,
+    )  # fmt: skip
+    bd = BreakdownScheduler("breakdowns", srv, mean_time_to_failure=period(p, 3, 300), mean_repair_time=p.lat(1))
+
+    def switch_on(proc, event):
+        proc.done += 1
+        return [inv.start_event(), bd.start_event()]
+
+    sw = Proc("switch_on", switch_on)
+    sim = make_sim([srv, inv, bd, sink, waste, sw], p.end())
+    sim.schedule(ev(t0, "on", sw))
+    times = arr + _wave(t0, u * 4, 12)
+    _send(sim, inv, times, "Demand")
+    comps = {"machine": srv, "dairy": inv, "breakdowns": bd, "sink": sink, "waste": waste}
+    return Scenario(sim, comps, FAMILY, True, len(times) + 1)
+
+
+# ----------------------------------------------------------------------
+# inventories
+
+
+def _long_wave(p: P, t0: int, n: int) -> list[int]:
+    """Demand spread until 70% of the run (reaches instants beyond 16 s when the run is long)."""
+    span = max(1.0, p.end() * 0.7 - t0 / 1e9)
+    return _wave(t0, span, n)
+
+
+@scenario("industrial.inventory_zero_lead_time", FAMILY)
+def inventory_zero_lead_time(seed, params):
+    """lead_time 0.0 (accepted), order_quantity 1, initial_stock 0: every demand reorders for the same instant."""
+    p = P(params, seed)
+    sink, lost = Sink("shipped"), Recorder("lost")
+    pack = Server("pack", concurrency=1, service_time=ConstantLatency(p.lat(0)), downstream=sink)
+    inv = InventoryBuffer("warehouse", initial_stock=0, reorder_point=0, order_quantity=1, lead_time=0.0, downstream=pack, stockout_target=lost)
+    arr = p.arrivals(8)
+    times = arr + _long_wave(p, min(arr), 40)
+    sim = make_sim([inv, pack, sink, lost], p.end())
+    _send(sim, inv, times, "Demand")
+    return Scenario(sim, {"warehouse": inv, "pack": pack, "shipped": sink, "lost": lost}, FAMILY, True, len(times))
+
+
+@scenario("industrial.inventory_order_quantity_one", FAMILY)
+def inventory_order_quantity_one(seed, params):
+    """order_quantity 1, initial_stock 0, reorder_point above the order quantity, lead_time of 1 ns."""
+    p = P(params, seed)
+    sink, lost = Sink("shipped"), Recorder("lost")
+    inv = InventoryBuffer("warehouse", initial_stock=0, reorder_point=3, order_quantity=1, lead_time=1e-9, downstream=sink, stockout_target=lost)
+    arr = p.arrivals(8)
+    times = arr + _long_wave(p, min(arr), 30)
+    sim = make_sim([inv, sink, lost], p.end())
+    _send(sim, inv, times, "Demand", ctx=lambda i: {"quantity": 1 + i % 2})
+    return Scenario(sim, {"warehouse": inv, "shipped": sink, "lost": lost}, FAMILY, True, len(times))
+
+
+def _perishable_extreme(seed, params, shelf_of, check_ticks, lead_of, stock=6):
+    p = P(params, seed)
+    sink, waste = Sink("sold"), Recorder("waste")
+    iv = period(p, 0, check_ticks)
+    pack = Server("pack", concurrency=1, service_time=ConstantLatency(p.lat(2)), downstream=sink)
+    inv = PerishableInventory(
+        "dairy", initial_stock=stock, shelf_life_s=shelf_of(p, iv), spoilage_check_interval_s=iv, reorder_point=2,
+        order_quantity=p.count(0, 5, hi=9), lead_time=lead_of(p, iv), downstream=pack, waste_target=waste,
+    )  # fmt: skip
+    arr = p.arrivals(8)
+    times = arr + _long_wave(p, min(arr), 30)
+    sim = make_sim([inv, pack, sink, waste], p.end())
+    sim.schedule(inv.start_event())
+    _send(sim, inv, times, "Demand", ctx=lambda i: {"quantity": 1 + i % 2})
+    return Scenario(sim, {"dairy": inv, "pack": pack, "sold": sink, "waste": waste}, FAMILY, True, len(times) + 1)
+
+
+@scenario("industrial.perishable_shelf_life_shorter_than_check", FAMILY)
+def perishable_shelf_life_shorter_than_check(seed, params):
+    """shelf_life = 1/20 of the check interval: every check wastes everything that was replenished."""
+    return _perishable_extreme(seed, params, lambda p, iv: iv / 20.0, 200, lambda p, iv: p.lat(1))
+
+
+@scenario("industrial.perishable_check_much_shorter_than_shelf", FAMILY)
+def perishable_check_much_shorter_than_shelf(seed, params):
+    """check interval = 1/50 of the shelf life, lead_time 0.0 (accepted), initial_stock 0."""
+    return _perishable_extreme(seed, params, lambda p, iv: iv * 50.0, 500, lambda p, iv: 0.0, stock=0)
+
+
+@scenario("industrial.perishable_zero_shelf_life", FAMILY)
+def perishable_zero_shelf_life(seed, params):
+    """shelf_life 0.0 (accepted): stock expires at the first check at or after its arrival; long lead time."""
+    return _perishable_extreme(seed, params, lambda p, iv: 0.0, 200, lambda p, iv: iv * 3.3)
+
+
+# ----------------------------------------------------------------------
+# pools / preemption
+
+
+def _pool_one(seed, params, qcap, cycle, chain):
+    p = P(params, seed)
+    sink = Sink("sink")
+    down = Server("after", concurrency=1, service_time=ConstantLatency(p.lat(2)), downstream=sink)
+    ents: list = [down, sink]
+    pools = []
+    for k in reversed(range(chain(p))):
+        pool = PooledCycleResource(f"unit{k}", pool_size=1, cycle_time=cycle(p, k), downstream=down, queue_capacity=qcap)
+        pools.insert(0, pool)
+        down = pool
+    arr = p.arrivals(9)
+    sim = make_sim([*pools, *ents], p.end())
+    _send(sim, pools[0], arr + _wave(min(arr), max(p.lat(0), 1e-9) * 5, 8), "Pallet")
+    return Scenario(sim, {**{q.name: q for q in pools}, "sink": sink}, FAMILY, True, len(arr) + 8)
+
+
+@scenario("industrial.pooled_one_unit_queue_capacity_one", FAMILY)
+def pooled_one_unit_queue_capacity_one(seed, params):
+    return _pool_one(seed, params, 1, lambda p, k: p.lat(k), lambda p: 1)
+
+
+@scenario("industrial.pooled_one_unit_unbounded_zero_cycle", FAMILY)
+def pooled_one_unit_unbounded_zero_cycle(seed, params):
+    """pool_size 1, queue_capacity 0 (= unbounded), cycle_time 0.0: the whole backlog drains at one instant."""
+    return _pool_one(seed, params, 0, lambda p, k: 0.0, lambda p: 1)
+
+
+@scenario("industrial.pooled_one_unit_chain_counts", FAMILY)
+def pooled_one_unit_chain_counts(seed, params):
+    """p.count single-unit pools in series, alternating zero and positive cycle times, unbounded queues."""
+    return _pool_one(seed, params, 0, lambda p, k: 0.0 if k % 2 else p.lat(k), lambda p: p.count(0, 3, hi=10))
+
+
+@scenario("industrial.preemptible_capacity_one", FAMILY)
+def preemptible_capacity_one(seed, params):
+    """capacity 1, equal and distinct priorities, holders of 1 ns and of p.hold: chains of preemptions."""
+    p = P(params, seed)
+    res = PreemptibleResource("crane", capacity=1)
+    arr = p.arrivals(9)
+    n = len(arr)
+    preempted = {"n": 0}
+
+    def body(proc, event):
+        i = event.context["metadata"]["worker"]
+        prio = float((n - i) // 2)  # pairs of equal priority, later pairs more urgent
+
+        def on_preempt():
+            preempted["n"] += 1
+
+        grant = yield res.acquire(amount=1, priority=prio, preempt=(i % 4 != 3), on_preempt=on_preempt)
+        yield (1e-9 if i % 3 == 0 else p.hold())
+        if not grant.preempted:
+            grant.release()
+        grant.release()  # double release: no-op
+        proc.done += 1
+
+    procs = [Proc(f"job{i}", body) for i in range(n)]
+    sim = make_sim([res, *procs], p.end())
+    for i, t in enumerate(arr):
+        sim.schedule(ev(t, "start", procs[i], worker=i))
+    return Scenario(sim, {"crane": res, "preempted": preempted}, FAMILY, True, n)
+
+
+# ----------------------------------------------------------------------
+# shifts
+
+
+@scenario("industrial.shifted_zero_length_adjacent_gaps", FAMILY)
+def shifted_zero_length_adjacent_gaps(seed, params):
+    """p.count shifts: zero-length shifts, adjacent shifts, gaps (default capacity 0), overlapping shifts."""
+    p = P(params, seed)
+    sink = Sink("sink")
+    arr = p.arrivals(10)
+    t0 = min(arr)
+    n = p.count(0, 6, lo=2, hi=12)
+    u = unit(p, t0, n + 3)
+    t0s = t0 / 1e9
+    shifts = []
+    for k in range(n):
+        a = t0s + (k + 1) * u
+        kind = k % 4
+        if kind == 0:
+            shifts.append(Shift(a, a, 5))  # zero length
+        elif kind == 1:
+            shifts.append(Shift(a, a + u, 1 + k % 3))  # adjacent to the next
+        elif kind == 2:
+            shifts.append(Shift(a, a + u * 0.5, 2))  # gap of half a unit behind it
+        else:
+            shifts.append(Shift(a - u * 0.25, a + u, 1))  # overlaps the previous
+    sched = ShiftSchedule(shifts, default_capacity=0)
+    srv = ShiftedServer("line", sched, service_time=below(p.lat(0), u), downstream=sink)
+    times = arr + _wave(t0, u * (n + 2), 2 * n + 10)
+    sim = make_sim([srv, sink], p.end())
+    _send(sim, srv, times, "Job")
+    return Scenario(sim, {"line": srv, "sink": sink}, FAMILY, True, len(times))
+
+
+@scenario("industrial.shifted_single_shift_from_zero", FAMILY)
+def shifted_single_shift_from_zero(seed, params):
+    """One shift [0, first arrival + unit) of capacity 1, nothing afterwards (default 0); service longer than the shift."""
+    p = P(params, seed)
+    sink = Sink("sink")
+    arr = p.arrivals(7)
+    t0 = min(arr)
+    u = unit(p, t0, 6)
+    sched = ShiftSchedule([Shift(0.0, t0 / 1e9 + u, 1)], default_capacity=0)
+    srv = ShiftedServer("line", sched, service_time=u * 1.5, downstream=sink)
+    sim = make_sim([srv, sink], p.end())
+    _send(sim, srv, arr + _wave(t0, u * 3, 6), "Job")
+    return Scenario(sim, {"line": srv, "sink": sink}, FAMILY, True, len(arr) + 6)
+
+
+# ----------------------------------------------------------------------
+# appointments, split/merge, breakdowns
+
+
+@scenario("industrial.appointment_duplicates_unsorted_noshow", FAMILY)
+def appointment_duplicates_unsorted_noshow(seed, params):
+    """Duplicate and unsorted appointment times (no_show_rate 0.0) next to a scheduler whose patients never show up."""
+    p = P(params, seed)
+    sink = Sink("sink")
+    pool = PooledCycleResource("rooms", pool_size=1, cycle_time=p.lat(0), downstream=sink, queue_capacity=1)
+    arr = p.arrivals(8)
+    t0s = min(arr) / 1e9
+    rng = random.Random(seed)
+    appts = [t / 1e9 for t in arr] + [t0s + p.lat(1)] * 3 + [t0s + p.lat(1) * 2, t0s, t0s + p.lat(2)]
+    rng.shuffle(appts)
+    shows = AppointmentScheduler("shows", pool, appts, no_show_rate=0.0)
+    ghosts = AppointmentScheduler("ghosts", pool, list(reversed(appts)), no_show_rate=1.0, event_type="Ghost")
+    empty = AppointmentScheduler("empty", pool, [])
+    sim = make_sim([shows, ghosts, empty, pool, sink], p.end())
+    for s in (shows, ghosts, empty):
+        for e in s.start_events():
+            sim.schedule(e)
+    comps = {"shows": shows, "ghosts": ghosts, "empty": empty, "rooms": pool, "sink": sink}
+    return Scenario(sim, comps, FAMILY, True, 2 * len(appts))
+
+
+@scenario("industrial.split_merge_single_target", FAMILY)
+def split_merge_single_target(seed, params):
+    """SplitMerge with ONE target (fan-out 1)."""
+    p = P(params, seed)
+    sink = Sink("sink")
+    worker = Replier("cell", p.lat(0))
+    sm = SplitMerge("assembly", [worker], sink)
+    arr = p.arrivals(6)
+    sim = make_sim([sm, sink, worker], p.end())
+    _send(sim, sm, arr, "Order")
+    return Scenario(sim, {"assembly": sm, "sink": sink, "cell": worker}, FAMILY, True, len(arr))
+
+
+@scenario("industrial.split_merge_instant_targets", FAMILY)
+def split_merge_instant_targets(seed, params):
+    """p.count targets, all but one answer in ZERO time (Replier 0.0); merged results feed a Server."""
+    p = P(params, seed)
+    sink = Sink("sink")
+    after = Server("after", concurrency=1, service_time=ConstantLatency(p.lat(1)), downstream=sink)
+    n = p.count(0, 3, lo=2)
+    workers = [Replier(f"cell{k}", 0.0 if k else p.lat(0)) for k in range(n)]
+    sm = SplitMerge("assembly", workers, after)
+    arr = p.arrivals(7)
+    sim = make_sim([sm, after, sink, *workers], p.end())
+    _send(sim, sm, arr, "Order")
+    return Scenario(sim, {"assembly": sm, "after": after, "sink": sink}, FAMILY, True, len(arr))
+
+
+def _breakdown_extreme(seed, params, mttf_of, mrt_of):
+    p = P(params, seed)
+    sink = Sink("sink")
+    srv = Server("machine", concurrency=1, service_time=ConstantLatency(p.lat(2)), downstream=sink)
+    base = period(p, 0, 300)
+    bd = BreakdownScheduler("breakdowns", srv, mean_time_to_failure=mttf_of(p, base), mean_repair_time=mrt_of(p, base))
+    arr = p.arrivals(8)
+    sim = make_sim([srv, bd, sink], p.end())
+    _send(sim, srv, arr + _long_wave(p, min(arr), 16))
+    sim.schedule(bd.start_event())
+    return Scenario(sim, {"machine": srv, "breakdowns": bd, "sink": sink}, FAMILY, True, len(arr) + 17)
+
+
+@scenario("industrial.breakdown_repair_much_longer_than_uptime", FAMILY)
+def breakdown_repair_much_longer_than_uptime(seed, params):
+    """mean_repair_time = 60 x mean_time_to_failure (mean time to failure of 1/60 base interval)."""
+    return _breakdown_extreme(seed, params, lambda p, b: b / 60.0, lambda p, b: b)
+
+
+@scenario("industrial.breakdown_repair_much_shorter_than_uptime", FAMILY)
+def breakdown_repair_much_shorter_than_uptime(seed, params):
+    """mean_repair_time = 1 ns << mean_time_to_failure: repairs complete (almost) at the breakdown instant."""
+    return _breakdown_extreme(seed, params, lambda p, b: b, lambda p, b: 1e-9)
